@@ -39,7 +39,37 @@ pub struct Eval {
     pub alloc_calls: u64,
 }
 
+/// Applies a scenario's environment changes to this process and undoes them
+/// when dropped.  Called while the process has no simulated threads.
+struct EnvGuard(Vec<(String, Option<std::ffi::OsString>)>);
+
+impl EnvGuard {
+    fn apply(scen: &Scenario) -> EnvGuard {
+        let mut saved = Vec::new();
+        for (k, v) in &scen.env {
+            saved.push((k.clone(), std::env::var_os(k)));
+            match v {
+                Some(v) => std::env::set_var(k, v),
+                None => std::env::remove_var(k),
+            }
+        }
+        EnvGuard(saved)
+    }
+}
+
+impl Drop for EnvGuard {
+    fn drop(&mut self) {
+        for (k, old) in self.0.drain(..).rev() {
+            match old {
+                Some(v) => std::env::set_var(&k, v),
+                None => std::env::remove_var(&k),
+            }
+        }
+    }
+}
+
 pub fn evaluate(scen: &Scenario, trace: bool) -> Eval {
+    let _env = EnvGuard::apply(scen);
     let c10 = scen.property == "C10";
     let opts = ExecOpts {
         keep_text: c10,
